@@ -80,6 +80,7 @@ class Gen:
       "eq_many": p(0.15),  # more equalities than coordinates (size relations such as neq > nq)
       "pile": p(0.08),  # a cluster of small free bodies: many broadphase candidates, many contacts, many trees
       "tiny": p(0.15),  # one shallow tree: nq, nv small relative to nu, na, neq, nsensordata, nuserdata
+      "welded_child": p(0.25),  # some child bodies have no joint of their own (rigidly attached to their parent: bodies != joints != dofs)
     }
     if features:
       self.ft.update(features)
@@ -195,7 +196,10 @@ class Gen:
         if self.ft["ball"]:
           jt.append("ball")
         cpos = [self.u(-0.1, 0.1) + 0.22 * (c - 0.5), self.u(-0.1, 0.1), self.u(-0.25, -0.12)]
-        s += self._body(tree, depth + 1, cpos, self.ch(jt), ind + "  ")
+        cj = self.ch(jt)
+        if self.ft["welded_child"] and r.random() < 0.4:
+          cj = None
+        s += self._body(tree, depth + 1, cpos, cj, ind + "  ")
     s += f"{ind}</body>\n"
     return s
 
